@@ -17,6 +17,7 @@ import (
 	"sort"
 	"strconv"
 	"strings"
+	"time"
 
 	"gorm.io/gorm"
 	"gorm.io/gorm/clause"
@@ -71,9 +72,10 @@ type Op struct {
 	N     int64    `json:"n,omitempty"`
 	Re    bool     `json:"re,omitempty"`
 	Nil   bool     `json:"nil,omitempty"`
-	Uref  int      `json:"uref,omitempty"`  // >0: the caller passes shared slice number uref (same backing array in every op naming it)
-	H     int      `json:"h,omitempty"`     // where_group: handle passed as the group condition
-	Names []string `json:"names,omitempty"` // x_* operations (executed stream): column / field / table / model names
+	Uref  int      `json:"uref,omitempty"` // >0: the caller passes shared slice number uref (same backing array in every op naming it)
+	H     int      `json:"h,omitempty"`    // where_group: handle passed as the group condition
+	Names []string `json:"names,omitempty"`
+	Form  string   `json:"form,omitempty"` // x_*: argument form // x_* operations (executed stream): column / field / table / model names
 }
 type Fin struct {
 	K    string `json:"k"` // find | first | take | update | delete | x_find x_first x_take x_count x_pluck x_scan
@@ -81,6 +83,7 @@ type Fin struct {
 	V    int64  `json:"v,omitempty"`
 	M    string `json:"m,omitempty"`    // x_*: destination model T | U | map
 	Name string `json:"name,omitempty"` // x_pluck: column
+	Dry  int    `json:"dry,omitempty"`  // x_*: 1 = through Session{DryRun}, 2 = through ToSQL
 }
 type Step struct {
 	K    string `json:"k"` // derive | sess | finish | abandon
@@ -134,13 +137,30 @@ type TX struct { // table "ts" of the executed stream
 	C2 int64
 	C3 int64
 	K4 int64
+	Q  Q `gorm:"foreignKey:TXID"`
 }
 
 func (TX) TableName() string { return "ts" }
 
 // hooks whose effect is visible in what is loaded (AfterFind) and in the bound values (BeforeCreate)
-func (t *TX) AfterFind(*gorm.DB) error    { t.K4 += 1000; return nil }
-func (u *U) AfterFind(*gorm.DB) error     { u.C3 += 5000; return nil }
+// (and that make Set / InstanceSet values of the statement visible in the results)
+func (t *TX) AfterFind(tx *gorm.DB) error {
+	t.K4 += 1000
+	if v, ok := tx.Get("c06:tag"); ok {
+		t.K4 += v.(int64)
+	}
+	if v, ok := tx.InstanceGet("c06:itag"); ok {
+		t.K4 += v.(int64)
+	}
+	return nil
+}
+func (u *U) AfterFind(tx *gorm.DB) error {
+	u.C3 += 5000
+	if v, ok := tx.Get("c06:tag"); ok {
+		u.C3 += v.(int64)
+	}
+	return nil
+}
 func (t *TX) BeforeCreate(*gorm.DB) error { t.C3 = 77; return nil }
 func (u *U) BeforeCreate(*gorm.DB) error  { u.C2 = 88; return nil }
 func (U) TableName() string               { return "us" }
@@ -148,7 +168,7 @@ func (U) TableName() string               { return "us" }
 func openExec() (*gorm.DB, *recdrv.Recorder) {
 	db, rec, _, err := gdb.Open(gdb.Opt{Config: &gorm.Config{SkipDefaultTransaction: true, Logger: logger.Discard}})
 	lib.Must(err)
-	lib.Must(db.AutoMigrate(&TX{}, &U{}))
+	lib.Must(db.AutoMigrate(&TX{}, &U{}, &Q{}))
 	var ts []TX
 	var us []U
 	for i := int64(1); i <= 6; i++ {
@@ -156,13 +176,18 @@ func openExec() (*gorm.DB, *recdrv.Recorder) {
 		us = append(us, U{ID: i + 10, C1: i % 2, C2: i, C3: 13 - i, K4: 200 + i})
 	}
 	seed := db.Session(&gorm.Session{SkipHooks: true})
-	lib.Must(seed.Create(&ts).Error)
+	lib.Must(seed.Omit("Q").Create(&ts).Error)
 	lib.Must(seed.Create(&us).Error)
+	qs := []Q{{ID: 1, TXID: 1, W: 3}, {ID: 2, TXID: 2, W: 9}, {ID: 3, TXID: 4, W: 1}, {ID: 4, TXID: 5, W: 6}}
+	lib.Must(seed.Create(&qs).Error)
 	rec.Reset()
 	return db, rec
 }
 
 func applyX(db *gorm.DB, op *Op, group *gorm.DB) *gorm.DB {
+	if tx, ok := applyXForm(db, op); ok {
+		return tx
+	}
 	nm := func(i int) string {
 		if i < len(op.Names) {
 			return op.Names[i]
@@ -244,7 +269,35 @@ func applyX(db *gorm.DB, op *Op, group *gorm.DB) *gorm.DB {
 }
 
 // applyFinX runs a reading finisher for real and returns the handle and a rendering of what it loaded
-func applyFinX(db *gorm.DB, f *Fin) (*gorm.DB, string) {
+// applyFinX: a panic inside gorm (e.g. Pluck into []int64 on a chain with relation Joins) is an
+// outcome like any other: recorded, and compared with the isolated replay
+func applyFinX(db *gorm.DB, f *Fin) (tx *gorm.DB, res string) {
+	defer func() {
+		if r := recover(); r != nil {
+			msg := ptrRe.ReplaceAllString(fmt.Sprint(r), "0xPTR")
+			tx, res = db.Session(&gorm.Session{NewDB: true}), "PANIC "+msg
+		}
+	}()
+	return applyFinX0(db, f)
+}
+
+func applyFinX0(db *gorm.DB, f *Fin) (*gorm.DB, string) {
+	switch f.Dry {
+	case 1:
+		db = db.Session(&gorm.Session{DryRun: true})
+	case 2: // ToSQL: the statement text with the values inlined
+		g := *f
+		g.Dry = 0
+		var inner *gorm.DB
+		text := db.ToSQL(func(tx *gorm.DB) *gorm.DB {
+			inner, _ = applyFinX0(tx, &g)
+			return inner
+		})
+		return inner, "tosql[" + text + "]"
+	}
+	if tx, res, ok := applyFinXForm(db, f); ok {
+		return tx, res
+	}
 	switch f.K {
 	case "x_find":
 		switch f.M {
@@ -255,7 +308,7 @@ func applyFinX(db *gorm.DB, f *Fin) (*gorm.DB, string) {
 		case "map":
 			var d []map[string]interface{}
 			tx := db.Find(&d)
-			return tx, fmt.Sprint(d)
+			return tx, showMaps(d)
 		}
 		var d []TX
 		tx := db.Find(&d)
@@ -302,6 +355,25 @@ func applyFinX(db *gorm.DB, f *Fin) (*gorm.DB, string) {
 	panic("unknown x finisher " + f.K)
 }
 
+// showMaps prints scanned maps with pointer values dereferenced (expression columns arrive as pointers)
+func showMaps(d []map[string]interface{}) string {
+	out := make([]map[string]interface{}, len(d))
+	for i, m := range d {
+		out[i] = map[string]interface{}{}
+		for k, v := range m {
+			rv := reflect.ValueOf(v)
+			for rv.IsValid() && (rv.Kind() == reflect.Ptr || rv.Kind() == reflect.Interface) && !rv.IsNil() {
+				rv = rv.Elem()
+			}
+			if rv.IsValid() && rv.CanInterface() {
+				v = rv.Interface()
+			}
+			out[i][k] = v
+		}
+	}
+	return fmt.Sprint(out)
+}
+
 // stmtText: what a DryRun handle built (empty after a real execution: Execute resets it)
 func stmtText(tx *gorm.DB) string {
 	if tx.Statement.SQL.Len() == 0 {
@@ -314,8 +386,8 @@ func drain(rec *recdrv.Recorder) string {
 	var sb strings.Builder
 	for _, e := range rec.Snapshot() {
 		switch e.Kind {
-		case "query", "exec", "stmt_query", "stmt_exec", "prepare":
-			fmt.Fprintf(&sb, "%s %s %v; ", e.Kind, e.Query, e.Args)
+		case "query", "exec", "stmt_query", "stmt_exec": // (a cached prepared statement is not prepared again: not compared)
+			fmt.Fprintf(&sb, "%s %s %v; ", strings.TrimPrefix(e.Kind, "stmt_"), e.Query, e.Args)
 		}
 	}
 	rec.Reset()
@@ -624,6 +696,14 @@ func applySess(db *gorm.DB, k string) *gorm.DB {
 			cfg.SkipDefaultTransaction = true
 		case "nonested":
 			cfg.DisableNestedTransaction = true
+		case "preparestmt":
+			cfg.PrepareStmt = true
+		case "propagateunscoped":
+			cfg.PropagateUnscoped = true
+		case "nowfunc":
+			cfg.NowFunc = func() time.Time { return time.Unix(1700000000, 0) }
+		case "logger":
+			cfg.Logger = logger.Discard
 		default:
 			panic("unknown session " + k)
 		}
@@ -1357,6 +1437,9 @@ func genExec(r *lib.Rng) Input {
 	push := func(s Step) int { in.Steps = append(in.Steps, s); return len(in.Steps) }
 	col := func() string { return lib.Pick(r, []string{"c1", "c2", "c3"}) }
 	xop := func() *Op {
+		if r.Chance(2, 5) {
+			return xopExtra(r)
+		}
 		switch r.Intn(16) {
 		case 0, 1:
 			return &Op{K: "x_where", Names: []string{col()}, N: int64(r.Range(0, 6))}
@@ -1393,8 +1476,35 @@ func genExec(r *lib.Rng) Input {
 		}
 		return &Op{K: "x_model", Names: []string{lib.Pick(r, []string{"T", "U"})}}
 	}
+	xfin0 := func() *Fin { return nil }
 	xfin := func() *Fin {
+		f := xfin0()
+		switch r.Intn(8) { // some finishers only build (DryRun session / ToSQL)
+		case 0:
+			f.Dry = 1
+		case 1:
+			if f.K != "x_create_dry" && f.K != "x_update_dry" && f.K != "x_delete_dry" {
+				f.Dry = 2
+			}
+		}
+		return f
+	}
+	xfin0 = func() *Fin {
 		m := lib.Pick(r, []string{"T", "U", "T", "U", "map"})
+		switch r.Intn(13) {
+		case 10:
+			if m == "map" {
+				m = "T"
+			}
+			return &Fin{K: "x_firstorinit", M: m}
+		case 11:
+			return &Fin{K: "x_update_dry", M: m, V: int64(r.Range(1, 9))}
+		case 12:
+			if m == "map" {
+				m = "U"
+			}
+			return &Fin{K: "x_delete_dry", M: m}
+		}
 		switch r.Intn(10) {
 		case 0, 1, 2:
 			return &Fin{K: "x_find", M: m}
@@ -1466,7 +1576,8 @@ func genExec(r *lib.Rng) Input {
 	}
 	xsess := func() string {
 		return lib.Pick(r, []string{"plain", "plain", "ctx", "debug", "skiphooks", "skiphooks", "dryrun", "queryfields", "fullsave",
-			"allowglobal", "batchsize", "skipdeftx", "nonested", "skiphooks+queryfields", "dryrun+skiphooks", "queryfields+allowglobal+batchsize"})
+			"allowglobal", "batchsize", "skipdeftx", "nonested", "skiphooks+queryfields", "dryrun+skiphooks", "queryfields+allowglobal+batchsize",
+			"preparestmt", "preparestmt+skiphooks", "propagateunscoped", "propagateunscoped+newdb", "nowfunc", "logger"})
 	}
 	h := push(Step{K: "sess", P: cur, Sess: lib.Pick(r, []string{"plain", "plain", "plain", "ctx", "debug", "queryfields", "skiphooks"})})
 	hs := []int{h}
@@ -1654,7 +1765,7 @@ func main() {
 		add("pattern", genPattern(r.Fork()))
 	}
 	// executed stream (real SQLite through the recording driver; specification only)
-	nexec := 160
+	nexec := 220
 	if a.Tier == "thorough" {
 		nexec = 1500
 	}
